@@ -124,6 +124,51 @@ pub fn run(o: &Opts) {
             tr.emit(ev);
         }
     }
+    // --bigwin: long windows and every window length up to 130 at large symbol sizes.  Logged: the ID list of the window, and
+    // for a handful of positions the head and tail of the payload next to the same packet requested singly.
+    if o.flag("bigwin") {
+        let proj = |d: &[u8]| -> Vec<u8> { d.iter().take(12).chain(d.iter().rev().take(12)).copied().collect() };
+        for (ci, &(k, t)) in [(4usize, 65535usize), (5, 16384), (3, 4096), (6, 1280), (4, 1024), (7, 64)].iter().enumerate() {
+            let f = (k * t) as u64;
+            let data = crate::codec::object_data(seed + 977 * ci as u64, f as usize);
+            tr.emit(json!({"ev":"cfg","id":1000 + ci,"f":f,"t":t,"z":1,"data":[]}));
+            let enc = SourceBlockEncoder::new(0, &Oti::new(f, t as u16, 1, 1, 1), &data);
+            let mut ns: Vec<u32> = (1..=130).collect();
+            ns.extend([191, 192, 193, 255, 256, 257, 511, 512, 513, 613, 614, 615, 767, 768, 769, 1000, 1023, 1024, 1025, 1228, 1535, 1536, 2047, 2048, 4095, 4096, 12288]);
+            for n in ns {
+                if n as usize * t > 9_000_000 {
+                    continue;
+                }
+                let s_ = rng.random_range(0..2000u32);
+                let mut ev = json!({"ev":"bigwindow","sbn":0,"s":s_,"n":n});
+                match catch(AssertUnwindSafe(|| enc.repair_packets(s_, n))) {
+                    Ok(v) => {
+                        ev["res"] = json!("ok");
+                        ev["ids"] = json!(v.iter().map(|p| json!([p.payload_id().source_block_number(), p.payload_id().encoding_symbol_id()])).collect::<Vec<_>>());
+                        let mut samples = vec![];
+                        let mut idx: Vec<usize> = vec![0, 1, v.len() / 2, v.len().saturating_sub(2), v.len().saturating_sub(1)];
+                        idx.push(rng.random_range(0..v.len().max(1)));
+                        idx.sort();
+                        idx.dedup();
+                        for i in idx {
+                            if i < v.len() {
+                                let single = enc.repair_packets(s_ + i as u32, 1);
+                                samples.push(json!({"i": i, "len": v[i].data().len(), "win": proj(v[i].data()),
+                                                    "single_id": single.first().map(|p| p.payload_id().encoding_symbol_id()),
+                                                    "single": single.first().map(|p| proj(p.data()))}));
+                            }
+                        }
+                        ev["samples"] = json!(samples);
+                    }
+                    Err(m) => {
+                        ev["res"] = json!("panic");
+                        ev["msg"] = json!(m);
+                    }
+                }
+                tr.emit(ev);
+            }
+        }
+    }
     tr.emit(json!({"ev":"end"}));
     println!("events={}", tr.finish());
 }
